@@ -594,6 +594,12 @@ class Ev:
             if isinstance(args[0], (EnumMember, ClassRef, Opaque, ReMatch)):
                 return False
             return isinstance(args[0], tuple(py))
+        if fname == "re.compile" and len(args) in (1, 2) and isinstance(args[0], str) and not kw:
+            import re as _re
+            try:
+                return ReCompiled(_re.compile(*args))
+            except (_re.error, TypeError):
+                raise Raised("re.error", n)
         # regular expressions with constant pattern and subject: pure library functions
         if fname in ("re.match", "re.fullmatch", "re.search") and not kw and len(args) == 2 \
                 and isinstance(args[0], str) and isinstance(args[1], str):
@@ -698,6 +704,11 @@ class Ev:
     def _method(self, recv, name, args, kw, n):
         if recv is None:
             raise Raised("AttributeError", n)
+        if isinstance(recv, ReCompiled):
+            if name in ("match", "fullmatch", "search") and len(args) == 1 and isinstance(args[0], str) and not kw:
+                m_ = getattr(recv.p, name)(args[0])
+                return None if m_ is None else ReMatch(m_)
+            raise Unknown("pattern method %s" % name)
         if isinstance(recv, ReMatch):
             if name == "groups" and not kw:
                 return recv.m.groups(*args)
@@ -998,6 +1009,13 @@ def _self_rooted(e):
     while isinstance(e, ast.Attribute):
         e = e.value
     return isinstance(e, ast.Name) and e.id == "self"
+
+
+class ReCompiled(object):
+    """a folded re.compile(<constant pattern>)"""
+
+    def __init__(self, p):
+        self.p = p
 
 
 class ReMatch(object):
